@@ -79,6 +79,13 @@ Notation espec := (list (Z * econt)).     (* container index (name c<i>) -> entr
 
 Inductive ann := AnnAbsent | AnnBad | AnnSpec (s : espec).
 
+(* annotation keys: 0 = node.koordinator.sh/extended-resource-spec (the summary annotation),
+   ids >= 1 = any other key.  An annotation VALUE is a string; all that matters of it here is how
+   it parses as an extended-resource-spec, so a value is abstracted to AnnBad (does not parse;
+   the empty string is such a value) or AnnSpec s. *)
+Definition A_SPEC : Z := 0.
+Notation annmap := (list (Z * ann)).
+
 Record pod := mkPod {
   p_labels : labels;
   p_prio : option Z;           (* spec.priority *)
@@ -86,14 +93,34 @@ Record pod := mkPod {
   p_init : list container;
   p_ctrs : list container;
   p_overhead : reslist;        (* spec.overhead; [] = nil *)
-  p_ann : ann }.
+  p_plres : option (reslist * reslist);  (* spec.resources (pod-level requests, limits); None = nil *)
+  p_ann : ann;                 (* the summary annotation *)
+  p_oann : annmap }.           (* every other annotation; AnnAbsent is never stored *)
 
 Definition set_labels (l : labels) (p : pod) : pod :=
-  mkPod l (p_prio p) (p_status_qos p) (p_init p) (p_ctrs p) (p_overhead p) (p_ann p).
+  mkPod l (p_prio p) (p_status_qos p) (p_init p) (p_ctrs p) (p_overhead p) (p_plres p) (p_ann p) (p_oann p).
 Definition set_prio (v : option Z) (p : pod) : pod :=
-  mkPod (p_labels p) v (p_status_qos p) (p_init p) (p_ctrs p) (p_overhead p) (p_ann p).
+  mkPod (p_labels p) v (p_status_qos p) (p_init p) (p_ctrs p) (p_overhead p) (p_plres p) (p_ann p) (p_oann p).
 Definition set_ann (a : ann) (p : pod) : pod :=
-  mkPod (p_labels p) (p_prio p) (p_status_qos p) (p_init p) (p_ctrs p) (p_overhead p) a.
+  mkPod (p_labels p) (p_prio p) (p_status_qos p) (p_init p) (p_ctrs p) (p_overhead p) (p_plres p) a (p_oann p).
+Definition set_oann (m : annmap) (p : pod) : pod :=
+  mkPod (p_labels p) (p_prio p) (p_status_qos p) (p_init p) (p_ctrs p) (p_overhead p) (p_plres p) (p_ann p) m.
+
+Fixpoint oget (k : Z) (l : annmap) : ann :=
+  match l with
+  | [] => AnnAbsent
+  | (k', v) :: t => if k =? k' then v else oget k t
+  end.
+Fixpoint oset (k : Z) (v : ann) (l : annmap) : annmap :=
+  match l with
+  | [] => [(k, v)]
+  | (k', v') :: t => if k =? k' then (k, v) :: t else (k', v') :: oset k v t
+  end.
+Definition aget (k : Z) (p : pod) : ann := if k =? A_SPEC then p_ann p else oget k (p_oann p).
+Definition aset (k : Z) (v : ann) (p : pod) : pod :=
+  if k =? A_SPEC then set_ann v p else set_oann (oset k v (p_oann p)) p.
+(* the string read under a key: an absent key reads as "", which does not parse *)
+Definition aval (a : ann) : ann := match a with AnnAbsent => AnnBad | _ => a end.
 
 (* ------------------------------------------------------------------ class derivation *)
 (* apis/extension/qos.go GetPodQoSClassByName *)
@@ -119,11 +146,16 @@ Definition pclass_raw (p : pod) : string :=
   end.
 
 (* k8s.io/kubectl/pkg/util/qos ComputePodQOS, as far as it matters here: a pod is
-   BestEffort iff no container or init container has a positive cpu/memory request or limit *)
+   BestEffort iff no container or init container has a positive cpu/memory request or limit;
+   when spec.resources is set (even empty) the pod-level lists are looked at INSTEAD of the
+   containers *)
 Definition pos_cpu_mem (r : reslist) : bool :=
   existsb (fun kv => ((fst kv =? R_CPU) || (fst kv =? R_MEM)) && (0 <? snd kv)) r.
 Definition kube_best_effort (p : pod) : bool :=
-  negb (existsb (fun c => pos_cpu_mem (c_req c) || pos_cpu_mem (c_lim c)) (p_ctrs p ++ p_init p)).
+  match p_plres p with
+  | Some (rq, lm) => negb (pos_cpu_mem rq || pos_cpu_mem lm)
+  | None => negb (existsb (fun c => pos_cpu_mem (c_req c) || pos_cpu_mem (c_lim c)) (p_ctrs p ++ p_init p))
+  end.
 
 (* GetPodPriorityClassWithQoS *)
 Definition pclass_of_qos (q : string) : string :=
@@ -159,9 +191,21 @@ Fixpoint init_walk (r : Z) (cs : list container) (side mx : Z) : Z * Z :=
       then let side' := side + creq r c in init_walk r t side' (Z.max mx side')
       else init_walk r t side (Z.max mx (creq r c + side))
   end.
-Definition pod_request (p : pod) (r : Z) : Z :=
+(* pod-level requests (spec.resources.requests) replace the aggregate of the containers for
+   the resources supported at pod level: cpu and memory (hugepages are not modelled) *)
+Definition pod_level_request (p : pod) (r : Z) : option Z :=
+  match p_plres p with
+  | Some (rq, _) => if (r =? R_CPU) || (r =? R_MEM) then rget r rq else None
+  | None => None
+  end.
+Definition containers_request (p : pod) (r : Z) : Z :=
   let '(side, mx) := init_walk r (p_init p) 0 0 in
-  Z.max (sum_reqs r (p_ctrs p) + side) mx + rval r (p_overhead p).
+  Z.max (sum_reqs r (p_ctrs p) + side) mx.
+Definition pod_request (p : pod) (r : Z) : Z :=
+  match pod_level_request p r with
+  | Some q => q
+  | None => containers_request p r
+  end + rval r (p_overhead p).
 
 (* rule ids = bits of the verdict mask *)
 Definition E_IMMUT_QOS : Z := 1.
@@ -245,7 +289,7 @@ Definition translate_pod (cls : string) (p : pod) : pod :=
              (map (translate_container cls) (p_init p))
              (map (translate_container cls) (p_ctrs p))
              (replace_erase cls R_MEM (replace_erase cls R_CPU (p_overhead p)))
-             (p_ann p).
+             (p_plres p) (p_ann p) (p_oann p).
 
 (* ------------------------------------------------------------------ colocation profiles *)
 Inductive selector :=
@@ -268,7 +312,9 @@ Record profile := mkProf {
   pf_lsuffix : list (Z * string); (* labelSuffixes *)
   pf_qos : string;
   pf_pc : pcref;                  (* priorityClassName and the PriorityClass object it names *)
-  pf_kprio : option Z }.
+  pf_kprio : option Z;
+  pf_anns : annmap;               (* spec.annotations *)
+  pf_akmap : list (Z * Z) }.      (* annotationKeysMapping old -> new *)
 
 Record env := mkEnv {
   e_ns : option labels;           (* labels of the pod's namespace; None = no such object *)
@@ -306,8 +352,17 @@ Definition should_skip (e : env) (pf : profile) : option bool :=
 
 Definition dec_string (n : Z) : string := NilZero.string_of_int (Z.to_int n).
 
-(* doMutateByColocationProfile (labels, key mapping, suffixes, QoS, priority); None = error *)
-Definition apply_profile (pf : profile) (p : pod) : option pod :=
+(* the annotation part of doMutateByColocationProfile: spec.annotations, then
+   annotationKeysMapping (pod.Annotations[new] = pod.Annotations[old]; a missing old key reads
+   as the empty string).  Independent of the label part. *)
+Definition apply_profile_anns (pf : profile) (p : pod) : pod :=
+  let p1 := fold_left (fun q kv => aset (fst kv) (aval (snd kv)) q) (pf_anns pf) p in
+  fold_left (fun q on => aset (snd on) (aval (aget (fst on) q)) q) (pf_akmap pf) p1.
+
+(* doMutateByColocationProfile (labels, annotations, key mappings, suffixes, QoS, priority);
+   None = error *)
+Definition apply_profile (pf : profile) (p0 : pod) : option pod :=
+  let p := apply_profile_anns pf p0 in
   let l1 := fold_left (fun l kv => lset (fst kv) (snd kv) l) (pf_labels pf) (p_labels p) in
   let l2 := fold_left (fun l on => lset (snd on) (lval (fst on) l) l) (pf_lkmap pf) l1 in
   let l3 := fold_left (fun l ks => match lget (fst ks) l with
